@@ -161,6 +161,22 @@ def r1_codec(ctx, nf) -> None:
             des = [x for x in calls_in(lp) if call_name(x) == "deserialize" and u(x.func.value) == vname and [u(a) for a in x.args] == [evar]]
             # the decoded definition is handed to the matching adder of the extension being built
             added = [x for x in calls_in(lp) if call_name(x) == adder and u(x.func.value) == evar and x.args and any(y in des for y in ast.walk(x.args[0]))]
+            if des and not added:
+                # .. or the serialized definition registers itself: its own deserialize(extension) hands the decoded definition to
+                # extension.<adder> on every path (then decoding it with the extension being built is enough)
+                fld = sc.find_field(d)
+                ecls = None
+                if fld is not None:
+                    for nm in [n.id for n in ast.walk(fld.node.annotation) if isinstance(n, ast.Name)]:
+                        if nm in sc.module.classes and "deserialize" in sc.module.classes[nm].methods:
+                            ecls = sc.module.classes[nm]
+                if ecls is not None:
+                    dm = ecls.methods["deserialize"]
+                    xp = dm.args.args[1].arg if len(dm.args.args) > 1 else None
+                    eps = [q for q in ctx.paths(f"{ecls.qualname}.deserialize") if q.kind != "raise"]
+                    if xp and eps and all(q.find_effect(f"{xp}.{adder}(ANY_)") or (q.value is not None and any(
+                            isinstance(n, ast.Call) and call_name(n) == adder and u(n.func.value) == xp for n in ast.walk(q.value))) for q in eps):
+                        added = des
             ok = bool(des) and bool(added) and not any(isinstance(x, (ast.Continue, ast.Break, ast.If)) for x in ast.walk(lp))
         ctx.check(bool(ok), "C10.R1", f"hugr.ext.Extension.{d}: decoded", sc.module.path, dec.lineno,
                   f"every serialized entry of {d} must be decoded into the extension being built (no filter)", dec)
